@@ -277,15 +277,17 @@ func c22Val(sdk *miscSDK, idx int, slot, kind, om, desc, desc2 string) (out stri
 		ok = ok && ok2
 		final = val2
 	}
-	if !ok || (slot != "v" && slot != "b" && slot != "p") || (om != "0" && om != "1") {
+	modes := map[string]string{"0": "", "1": "omitempty", "n": "", "o": "omitempty", "d": "omitempty,deletable", "x": "deletable"}
+	opt, okMode := modes[om]
+	if !ok || (slot != "v" && slot != "b" && slot != "p") || !okMode || (slot != "p" && om != "0" && om != "1") {
 		return "bad-op"
 	}
 	tag := map[string]string{"v": "value", "b": "Fld", "p": ""}[slot]
-	if om == "1" {
+	if opt != "" {
 		if tag != "" {
 			tag += ","
 		}
-		tag += "omitempty"
+		tag += opt
 	}
 	var fields []reflect.StructField
 	xi := 1
@@ -438,6 +440,16 @@ func c22RandDesc(rng *rand.Rand, kind string) string {
 }
 
 func c22GenVals(rng *rand.Rand, tier string, emit func(string)) {
+	for _, n := range c22ShapeNames {
+		emit("shape " + n)
+	}
+	// profile field overwritten by an empty value under every tag mode: n none, o omitempty, d omitempty,deletable, x deletable
+	for _, k := range c22ValKinds {
+		c := c22ValCorpus[k]
+		for _, mode := range []string{"n", "o", "d", "x"} {
+			emit(fmt.Sprintf("pupd %s %s %s %s", k, mode, c[len(c)-1], c[0]))
+		}
+	}
 	for _, slot := range []string{"v", "b", "p"} {
 		for _, k := range c22ValKinds {
 			for _, d := range c22ValCorpus[k] {
